@@ -82,18 +82,19 @@ class Run:
 
 
 # --------------------------------------------------------------------------- harness build
-def build_harness(r, repo=None):
+def build_harness(r, repo=None, race=False):
     repo = repo or REPO
     hdir = os.path.join(r.dir, "h")
-    shutil.copytree(HARNESS, hdir, ignore=shutil.ignore_patterns("js", "ssagraph", "*.tmpl"))
+    if not os.path.isdir(hdir):
+        shutil.copytree(HARNESS, hdir, ignore=shutil.ignore_patterns("js", "ssagraph", "*.tmpl"))
     with open(os.path.join(HARNESS, "go.mod.tmpl")) as f:
         mod = f.read().replace("@REPO@", repo)
     with open(os.path.join(hdir, "go.mod"), "w") as f:
         f.write(mod)
-    binp = os.path.join(r.dir, "harness.bin")
+    binp = os.path.join(r.dir, "harness.race" if race else "harness.bin")
     last = ""
     for tags in ("verif,verif_internal", "verif", ""):
-        cmd = ["go", "build", "-o", binp]
+        cmd = ["go", "build", "-o", binp] + (["-race"] if race else [])
         if tags:
             cmd += ["-tags", tags]
         cmd.append(".")
@@ -231,15 +232,17 @@ def read_events(path, ids=None):
     return out
 
 
-def gen_traces(r, binp, outdir, only=None, per_shard=None):
+def gen_traces(r, binp, outdir, only=None, per_shard=None, env=None, capture=None):
     os.makedirs(outdir, exist_ok=True)
     cmd = [binp, "gen", "-prop", r.prop, "-tier", r.tier, "-seed", str(r.seed), "-out", outdir]
     if per_shard:
         cmd += ["-per-shard", str(per_shard)]
     if only:
         cmd += ["-only", only]
-    rc, out = run(cmd, cwd=r.dir, env=go_env(), timeout=3000)
-    if rc != 0:
+    rc, out = run(cmd, cwd=r.dir, env=env or go_env(), timeout=3000)
+    if capture is not None:
+        capture.append(out)
+    if rc != 0 and not (capture is not None and rc == 66):
         raise Inconclusive("harness gen failed (rc=%s):\n%s" % (rc, out[-3000:]))
     with open(os.path.join(outdir, "gen.json")) as f:
         return json.load(f)
